@@ -92,6 +92,9 @@ type Spec struct {
 	Code      uint
 	Tamper    Tamper
 	SignedSfx string // deactivate: suffix inside signed data ("" = Suffix)
+	// SignedReveal, when set, is the key whose reveal value is written INSIDE the deactivate's signed data (the
+	// request-level reveal value stays RevealKey's): an attacker's self-consistent signed part
+	SignedReveal *Key
 	Nonce     string
 	HeaderAlg string // overrides the "alg" protected header ("" = the signing key's algorithm)
 	CrvSpell  string // overrides the spelling of "crv" inside the signed JWK ("" = as is)
@@ -242,7 +245,11 @@ func Build(s Spec) *Op {
 		if ss == "" {
 			ss = s.Suffix
 		}
-		signed := &model.DeactivateSignedDataModel{DidSuffix: ss, RevealValue: s.RevealKey.Reveal(s.Code),
+		signedReveal := s.RevealKey.Reveal(s.Code)
+		if s.SignedReveal != nil {
+			signedReveal = s.SignedReveal.Reveal(s.Code)
+		}
+		signed := &model.DeactivateSignedDataModel{DidSuffix: ss, RevealValue: signedReveal,
 			AnchorFrom: s.From, AnchorUntil: s.Until}
 		payload := canon(signed)
 		payload = injectKey(payload, "recoveryKey", signedJWK(s, s.SignedKey))
